@@ -29,13 +29,14 @@ type env struct {
 	c       *imapclient.Client
 	srv     *vimap.Server
 	cEnd    *vnet.End
-	results map[string]string
+	results []string // "name.label=ok|err" (a slice: map operations would be reported by the race detector)
 	running int
 }
 
+//go:norace
 func setup(greeting string) *env {
 	cEnd, sEnd := vnet.Pair("client", "server")
-	e := &env{cEnd: cEnd, results: map[string]string{}}
+	e := &env{cEnd: cEnd, results: make([]string, 0, 64)}
 	e.srv = &vimap.Server{End: sEnd, Greeting: greeting}
 	e.srv.Respond = func(c *vimap.Cmd) string {
 		switch c.Name {
@@ -46,7 +47,7 @@ func setup(greeting string) *env {
 		case "CAPABILITY":
 			return "* CAPABILITY IMAP4rev1 IDLE ENABLE\r\n" + c.Tag + " OK done\r\n"
 		case "ENABLE":
-			return "* ENABLED IMAP4rev2\r\n" + c.Tag + " OK done\r\n"
+			return "* ENABLED UTF8=ACCEPT\r\n" + c.Tag + " OK done\r\n"
 		case "SEARCH":
 			return "* SEARCH 1 2\r\n" + c.Tag + " OK done\r\n"
 		case "SELECT":
@@ -63,14 +64,15 @@ func setup(greeting string) *env {
 	return e
 }
 
+//go:norace
 func (e *env) caller(name string, f func(rec func(label string, err error))) {
 	e.running++
 	vsched.Go(name, func() {
 		f(func(label string, err error) {
 			if err == nil {
-				e.results[name+"."+label] = "ok"
+				e.results = append(e.results, name+"."+label+"=ok")
 			} else {
-				e.results[name+"."+label] = "err"
+				e.results = append(e.results, name+"."+label+"=err")
 			}
 		})
 		e.running--
@@ -78,13 +80,14 @@ func (e *env) caller(name string, f func(rec func(label string, err error))) {
 }
 
 type observation struct {
-	Results  map[string]string
+	Results  []string
 	Problems []string
 	Tags     int
 	Dropped  bool
 	CloseErr bool
 }
 
+//go:norace
 func (e *env) finish() interface{} {
 	vsched.WaitUntil("join callers", func() bool { return e.running == 0 })
 	cerr := e.c.Close()
@@ -100,6 +103,7 @@ type scenario struct {
 	maxBound int  // 0 = default
 }
 
+//go:norace
 func scenarios() []scenario {
 	status := &imap.StatusOptions{NumMessages: true}
 	fo := &imap.FetchOptions{UID: true, BodySection: []*imap.FetchItemBodySection{{}}}
@@ -268,9 +272,9 @@ func scenarios() []scenario {
 			return e.finish()
 		}},
 		{name: "enable+search", allOK: true, body: func() interface{} {
-			e := setup("* PREAUTH [CAPABILITY IMAP4rev1 ENABLE IMAP4rev2] ready\r\n")
+			e := setup("* PREAUTH [CAPABILITY IMAP4rev1 ENABLE UTF8=ACCEPT] ready\r\n")
 			e.caller("A", func(rec func(string, error)) {
-				_, err := e.c.Enable(imap.CapIMAP4rev2).Wait()
+				_, err := e.c.Enable(imap.CapUTF8Accept).Wait()
 				rec("enable", err)
 			})
 			e.caller("B", func(rec func(string, error)) {
@@ -288,10 +292,7 @@ func build(s scenario) *vx.Scenario {
 		Body: s.body,
 		Sig: func(res *vsched.Result, obs interface{}) string {
 			o, _ := obs.(observation)
-			var ks []string
-			for k, v := range o.Results {
-				ks = append(ks, k+"="+v)
-			}
+			ks := append([]string{}, o.Results...)
 			sort.Strings(ks)
 			return strings.Join(ks, ",") + fmt.Sprint(o.Dropped, o.CloseErr)
 		},
@@ -313,9 +314,9 @@ func build(s scenario) *vx.Scenario {
 				return "wire-problem:" + s.name + ":" + strings.Fields(o.Problems[0])[0], strings.Join(o.Problems, "; ")
 			}
 			if s.allOK && !o.Dropped {
-				for k, v := range o.Results {
-					if v != "ok" {
-						return "command-fails-without-fault:" + s.name + ":" + k, fmt.Sprint(o.Results)
+				for _, kv := range o.Results {
+					if !strings.HasSuffix(kv, "=ok") {
+						return "command-fails-without-fault:" + s.name + ":" + strings.SplitN(kv, "=", 2)[0], fmt.Sprint(o.Results)
 					}
 				}
 			}
@@ -426,6 +427,53 @@ func main() {
 		}
 		run.Sample("scenario", map[string]interface{}{"name": r.Name, "executions": r.Executions, "bound_completed": r.BoundDone, "exhaustive": r.Exhaustive, "distinct_outcomes": len(r.Outcomes)})
 		run.Set("bound_completed:"+r.Name, int64(r.BoundDone))
+	}
+	// ---- data-race pass (plan A): the same scenarios in a -race build, under the same controlled
+	// scheduler whose hand-offs are invisible to the race detector; every explored schedule is
+	// judged with exactly the program's own happens-before relation ----
+	if bin := os.Getenv("VERIF_RACE_BIN"); bin != "" {
+		rbound, rmax := 2, int64(30000)
+		if run.Thorough() {
+			rbound, rmax = 3, 600000
+		}
+		rres, stderr := vx.ShardedBin(bin, "race", len(scs), func(i int) vx.ItemResult {
+			r := vx.ExploreItem(build(scs[i]), rbound, vx.Config{MaxExec: rmax, Delay: true})
+			r.Name = "race:" + r.Name
+			return r
+		})
+		var rexec int64
+		for _, r := range rres {
+			if r.EngineErr != "" {
+				run.EngineError("race pass: %s", r.EngineErr)
+			}
+			rexec += r.Executions
+			run.Trans += r.Points
+			run.Traces += r.Executions
+			if !r.Exhaustive {
+				exhaustive = false
+			}
+		}
+		run.AddEvals(rexec)
+		reports := vx.ParseRaceReports(stderr, []string{"go-imap/v2/imapclient", "go-imap/v2/internal/imapwire", "go-imap/v2.", "go-imap/v2/internal."})
+		var harnessReports int64
+		for _, rep := range reports {
+			if !rep.Inner {
+				harnessReports++
+				run.Set("last_harness_side_race_report", rep.Key+"\n"+rep.Text)
+				continue
+			}
+			name := "?"
+			if rep.Item >= 0 && rep.Item < len(scs) {
+				name = scs[rep.Item].name
+			}
+			run.Violation("data-race:"+rep.Key, map[string]interface{}{"scenario": name, "report": rep.Text})
+		}
+		run.Set("race_pass_executions", rexec)
+		run.Set("race_pass_delay_bound", int64(rbound))
+		run.Set("race_pass_reports_total", int64(len(reports)))
+		run.Set("race_pass_reports_with_a_harness_side_ignored", harnessReports)
+	} else {
+		run.Set("race_pass", "skipped: no -race build available")
 	}
 	run.States = int64(2 * len(scs))
 	run.NontrivialN(int64(outcomes))
